@@ -34,6 +34,7 @@ package model
 //   - gas limit delta exactly equal to the bound,
 //   - header time not after the parent's / far in the future (not in the statement),
 //   - an epoch block listing no validator at all,
+//   - a height whose revision number differs from the latest header's (not sealed),
 //   - a signer that sealed one of the preceding floor(N/2) blocks, but whose entry
 //     the Parlia reference snapshot has already dropped because the set in force
 //     was smaller when that block was processed (only after the set has grown).
@@ -280,6 +281,10 @@ func (m *ParliaModel) Check(h *bsctypes.Header) ParliaResult {
 		} else if diff == bound {
 			open = append(open, "gas-limit-at-bound")
 		}
+	}
+	// the revision part of the height is neither sealed nor mentioned by the statement
+	if h.Height.RevisionNumber != parent.Height.RevisionNumber {
+		open = append(open, "revision-number")
 	}
 	// time: not part of the statement
 	if h.Time <= parent.Time {
